@@ -286,6 +286,14 @@ for _o in _REG.get('C11', []):
     if _o.oid == 'C11.series.dxlog':
         _REG.setdefault('C10', []).append(_Ob('C10.callee.dxlog_series', _o.func, _o.fns, _o.tier, _o.backend, _o.doc, _o.replay, 'C10'))
 
+# Likewise the one-variable Barr-Zee functions of the fermionic two-loop and one-loop parts (they decouple because their definitions do): C01's
+# definition contracts are re-registered as callee contracts of C10.
+from contracts import c01 as _c01
+for _f in ('f_PS', 'f_S', 'f_CSl', 'F1', 'F1t', 'F2', 'F3'):
+    for _o in _REG.get('C01', []):
+        if _o.oid == 'C01.%s.def' % _f:
+            _REG.setdefault('C10', []).append(_Ob('C10.callee.%s.def' % _f, _o.func, _o.fns, _o.tier, _o.backend, _o.doc, _o.replay, 'C10'))
+
 
 def fidelity(tier, seed):
     """A-FRONT guard: the scalar functions of the files under contract, interpreter (float mode) vs compiled real code, bit for bit"""
